@@ -184,7 +184,9 @@ EXPORT errno_t _mbsrtowcs_s_chk(size_t *restrict retvalp,
     orig_dest = dest;
     memcpy(&orig_ps, ps, sizeof(orig_ps));
 
-    *retvalp = mbsrtowcs(dest, srcp, len, ps);
+    errno = 0;
+    /* libc stores up to len elements: never more than dmax */
+    *retvalp = mbsrtowcs(dest, srcp, (dest && len > dmax) ? dmax : len, ps);
 
     if (likely(*retvalp < dmax)) {
         if (dest) {
@@ -196,14 +198,16 @@ EXPORT errno_t _mbsrtowcs_s_chk(size_t *restrict retvalp,
         }
         rc = EOK;
     } else {
+        /* (size_t)-1 is an illegal sequence: leave the conversion state as
+           it was passed, usable for the next call. */
+        const int tmp = (*retvalp == (size_t)-1);
+        if (tmp) {
+            rc = errno ? errno : EILSEQ;
+            memcpy(ps, &orig_ps, sizeof(orig_ps));
+        } else {
+            rc = ESNOSPC;
+        }
         if (dest) {
-            size_t tmp = 0;
-            errno = 0;
-            /* with NULL either 0 or -1 is returned */
-            if (*retvalp > RSIZE_MAX_WSTR) { /* else ESNOSPC */
-                tmp = mbsrtowcs(NULL, srcp, len - 1, &orig_ps);
-            }
-            rc = (tmp == 0) ? ESNOSPC : errno;
             /* the entire src must have been copied, if not reset dest
              * to null the string. (only with SAFECLIB_STR_NULL_SLACK) */
             handle_werror(orig_dest, dmax,
@@ -211,7 +215,7 @@ EXPORT errno_t _mbsrtowcs_s_chk(size_t *restrict retvalp,
                                : "mbsrtowcs_s: illegal sequence",
                           rc);
         } else {
-            rc = ((size_t)*retvalp == 0) ? EOK : errno;
+            rc = tmp ? rc : EOK;
         }
     }
 
